@@ -109,6 +109,16 @@ impl VelocityControl {
 //@fn vls-core/src/util/velocity.rs :: impl VelocityControl :: update_spec mode=trusted
 //@include frag/c/vc_update_spec.rs
 //@end
+// the save / load API (contracts proved in unit velocity), declared so that a restart path written with it is decided
+//@fn vls-core/src/util/velocity.rs :: impl VelocityControl :: get_state mode=trusted
+//@include frag/c/vc_get_state.rs
+//@end
+//@fn vls-core/src/util/velocity.rs :: impl VelocityControl :: load_from_state mode=trusted
+//@include frag/c/vc_load_from_state.rs
+//@end
+//@fn vls-core/src/util/velocity.rs :: impl VelocityControl :: with_state mode=trusted
+//@include frag/c/vc_with_state.rs
+//@end
 //@fn vls-core/src/util/velocity.rs :: impl VelocityControl :: new mode=trusted
     ensures
         vc_wf(r), r.start_sec == 0, spec_matches_spec(r, spec),
